@@ -18,6 +18,7 @@ LEVEL_TEXT = ("2e3 (quick) / 5e4 (thorough) sampler configurations, 3 consecutiv
               "one-to-one correspondence of perturbation vectors with engine points, Latin-hypercube stratification; bounded sampling")
 LEVEL_NOTE = "trusted: SciPy's engines (points are taken as given), the matching in this file"
 ANCHOR_FILES = ["src/ropt/plugins/sampler/scipy.py", "src/ropt/plugins/sampler/base.py", "src/ropt/ensemble_evaluator/_ensemble_evaluator.py"]
+EXECUTION_COUNTERS = ["calls_checked"]   # executions of the oracle inside the cases (reported as coverage.evaluations)
 RULE = ("case = one sampler configuration (method, R, P, V, mask, assignment, shared, seed) called 3 times; non-trivial if the sampler handles at least one variable; "
         "QMC cases additionally need V_handled>1 and R*P>1 to be able to expose scrambling (counted separately); distinct key = case index")
 ASSUMPTIONS = ["the array returned by generate_samples belongs to the caller (ropt itself adds the other samplers' output into it in place), so the harness overwrites it between calls",
